@@ -321,13 +321,12 @@ class EyringHS(Expr):
     def __call__(self, variables, backend=math, reaction=None, **kwargs):
         dH, dS, c0 = self.all_args(variables, backend=backend, **kwargs)
         T, R, kB, h = [variables[k] for k in self.parameter_keys]
-        return (
-            kB
-            / h
-            * T
-            * backend.exp(-(dH - T * dS) / (R * T))
-            * c0 ** (1 - reaction.order())
-        )
+        exponent = -(dH - T * dS) / (R * T)
+        try:
+            exponent = exponent.simplified  # e.g. kJ/J: math.exp would only see the magnitude
+        except AttributeError:
+            pass
+        return kB / h * T * backend.exp(exponent) * c0 ** (1 - reaction.order())
 
 
 class RampedTemp(Expr):
